@@ -23,9 +23,13 @@ VARIABLES
     cpFinal,   \* finalized check points (fids), cpFinal[i + 1] = check point i
     cached,    \* <<check point index, << fids >> >>: cached_block_filter_hashes
     pf,        \* peer -> [cps, latest, bpr, br, tpr]: per-peer filter / request bookkeeping
-    fetchH, fetchT   \* fetching_headers / fetching_txs: sets of <<id, added, firstSent (-1 = never), timeout, missing>>
+    fetchH, fetchT,  \* fetching_headers / fetching_txs: sets of <<id, added, firstSent (-1 = never), timeout, missing>>
+    over,      \* history (spec-only): script keys whose stored number was set by rollback_to_block(x) to x
+               \* (known finding KF-C09-rollback-number) and not yet confirmed by a filtering pass
+    subst      \* history (spec-only): blocks recorded as matched through a BlockFilters message whose block
+               \* hash at that position is not the block the filter belongs to (known finding KF-C06-blockhash)
 
-fsVars == <<scripts, startOf, minF, mdb, mmem, cells, hist, txs, hdrs, nums, cpFinal, cached, pf, fetchH, fetchT>>
+fsVars == <<scripts, startOf, minF, mdb, mmem, cells, hist, txs, hdrs, nums, cpFinal, cached, pf, fetchH, fetchT, over, subst>>
 allVars == <<psVars, fsVars>>
 
 Interval == cfg.interval
@@ -43,7 +47,7 @@ NumOf(sk) == (CHOOSE e \in scripts : e[1] = sk)[2]
 \* scripts although block x itself was removed (MIN_FILTERED_NUMBER becomes x - 1).  With the
 \* finding allowed, such a script is judged as filtered up to x - 1.
 HonestNumOf(sk) ==
-    IF "KF-C09-rollback-number" \in cfg.allow /\ NumOf(sk) = minF + 1 THEN minF ELSE NumOf(sk)
+    IF "KF-C09-rollback-number" \in cfg.allow /\ sk \in over /\ NumOf(sk) > 0 THEN NumOf(sk) - 1 ELSE NumOf(sk)
 SetMin(S) == CHOOSE x \in S : \A y \in S : x <= y
 
 \* Storage::update_block_number(n): every script below n is raised to n
@@ -73,6 +77,8 @@ Rewind(m) == IF mdb = <<>> THEN m ELSE Min(m, IF mdb[1][1] = 0 THEN 0 ELSE mdb[1
 
 SetScripts(cmd, list) ==
     /\ UNCHANGED psCore
+    /\ over' = IF cmd = "all" THEN {} ELSE over \ ListKeys(list)
+    /\ UNCHANGED subst
     /\ UNCHANGED <<cpFinal, cached, pf, fetchH, fetchT>>
     /\ mmem' = {}                 \* the RPC clears the in-memory map in every case
     /\ IF cmd = "all"
@@ -178,8 +184,17 @@ RecvFilters(p, m) ==
     LET s == peer[p]
         n == Len(m.fs)
     IN
+    \* a script whose number is raised (or confirmed: number <= the new filtered number while nothing is
+    \* pending) by update_block_number no longer over-claims
+    /\ over' = IF scripts' # scripts \/ (mdb' = <<>> /\ mmem' = {} /\ minF' # minF)
+               THEN {k \in over : \E e \in scripts' : e[1] = k /\ e[2] > minF'} ELSE over
     /\ UNCHANGED <<world, cfg, now, peer, tip, tipTD, lastN>>
     /\ UNCHANGED <<startOf, cpFinal>>
+    \* blocks that enter a matched record although the filter at their position belongs to another block
+    /\ subst' = subst \cup (IF Len(mdb') > Len(mdb) /\ Len(m.fs) = Len(m.hs)
+                            THEN {m.hs[i] : i \in {j \in 1..Len(m.hs) : m.hs[j] # m.fs[j]}}
+                                 \cap (UNION {{mdb'[i][3][j][1] : j \in 1..Len(mdb'[i][3])} : i \in 1..Len(mdb')})
+                            ELSE {})
     /\ IF scripts = {} \/ s.st = "None" \/ ~HasProof(s)
        THEN /\ out'.ban = {} /\ UNCHANGED <<scripts, minF, mdb, mmem>> /\ IxUnchanged
        ELSE IF minF + 1 # m.start
@@ -248,6 +263,14 @@ SortByNum(S) ==
 
 \* body: "true" = the block of the world, "forged" = a body that is not the header's
 RecvBlock(p, b, body) ==
+    IF body # "true"
+    THEN \* the body does not match the (proved) header: ban, the block is ignored
+         /\ out'.ban = {p}
+         /\ UNCHANGED <<world, cfg, now, peer, tip, tipTD, lastN>>
+         /\ UNCHANGED <<scripts, startOf, minF, mdb, mmem, cpFinal, cached, over, subst>> /\ IxUnchanged
+    ELSE
+    /\ UNCHANGED subst
+    /\ over' = IF mdb' # mdb THEN {k \in over : NumOf(k) > mdb[1][1] + mdb[1][2] - 1} ELSE over
     /\ UNCHANGED <<world, cfg, now, peer, tip, tipTD, lastN>>
     /\ UNCHANGED <<startOf, minF, cpFinal, cached>>
     /\ out'.ban = {}
@@ -270,7 +293,7 @@ RecvBlock(p, b, body) ==
 (* Ticks that touch mmem: recovery of the earliest record after a restart  *)
 (***************************************************************************)
 FilterTick0 ==
-    /\ UNCHANGED psCore
+    /\ UNCHANGED psCore /\ UNCHANGED <<over, subst, fetchH, fetchT>>
     /\ UNCHANGED <<scripts, startOf, minF, mdb, cpFinal>> /\ IxUnchanged
     /\ mmem' = IF mdb # <<>> /\ mmem = {} /\ \E p \in PeerNames : HasProof(peer[p])
                THEN RecBlocks(mdb[1]) ELSE mmem
@@ -286,8 +309,12 @@ KeepUpTo(recs, f) ==
     ELSE IF recs[Len(recs)][1] > f THEN KeepUpTo(SubSeq(recs, 1, Len(recs) - 1), f)
     ELSE recs
 
+RolledKeys(x) == {k \in Keys : NumOf(k) >= x}
+
 RollbackTo(x) ==
-    LET R == {k \in Keys : NumOf(k) >= x}
+    \* the history of every registered script is scanned (entries above a script's own number exist
+    \* when the process died between filter_block and update_block_number)
+    LET R == Keys
         ix == Rollback(world, Ix, x, R)
     IN /\ SetIx(ix)
        /\ scripts' = {<<e[1], IF e[2] >= x THEN x ELSE e[2]>> : e \in scripts}
@@ -296,17 +323,17 @@ RollbackTo(x) ==
 \* rg / nl: reorg section and last-N headers of the prove state of an accepted proof that makes
 \* the tip heavier (tipMoves); the decision is PeerSync!ForkDecision, evaluated in the PRE state
 CommitEffects(rg, nl, tipMoves) ==
-    IF ~tipMoves THEN UNCHANGED <<scripts, minF, mdb, mmem>> /\ IxUnchanged
+    IF ~tipMoves THEN UNCHANGED <<scripts, minF, mdb, mmem, over>> /\ IxUnchanged
     ELSE LET fd == ForkDecision(rg, nl) IN
          IF fd.kind = "one"
          THEN /\ mdb' = SelectSeq(mdb, LAMBDA r : r[1] = 0)
               /\ mmem' = {}
-              /\ RollbackTo(1)
+              /\ RollbackTo(1) /\ over' = over \cup RolledKeys(1)
          ELSE IF fd.kind = "to"
          THEN LET kept == KeepUpTo(mdb, fd.f)
                   x == (IF kept = <<>> THEN fd.f ELSE kept[Len(kept)][1]) + 1
-              IN /\ mdb' = kept /\ mmem' = {} /\ RollbackTo(x)
-         ELSE UNCHANGED <<scripts, minF, mdb, mmem>> /\ IxUnchanged
+              IN /\ mdb' = kept /\ mmem' = {} /\ RollbackTo(x) /\ over' = over \cup RolledKeys(x)
+         ELSE UNCHANGED <<scripts, minF, mdb, mmem, over>> /\ IxUnchanged
 
 (***************************************************************************)
 (* fetch_header / fetch_transaction bookkeeping (Peers fetching maps) and   *)
@@ -335,21 +362,21 @@ ReportedBlockOf(t) ==
 
 \* fetch_transaction(t): [status, blk]
 RpcFetchTx(t, status, blk) ==
-    /\ UNCHANGED psCore
+    /\ UNCHANGED psCore /\ UNCHANGED <<over, subst>>
     /\ UNCHANGED <<scripts, startOf, minF, mdb, mmem, cpFinal, cached, pf, fetchH>> /\ IxUnchanged
     /\ IF StoredTx(Ix, t) # {}
        THEN /\ status = "committed" /\ blk = ReportedBlockOf(t) /\ UNCHANGED fetchT
        ELSE /\ status = FetchStatusOf(fetchT, t) /\ fetchT' = AfterFetchCall(fetchT, t)
 
 RpcGetTx(t, status, blk) ==
-    /\ UNCHANGED psCore
+    /\ UNCHANGED psCore /\ UNCHANGED <<over, subst>>
     /\ UNCHANGED <<scripts, startOf, minF, mdb, mmem, cpFinal, cached, pf, fetchH, fetchT>> /\ IxUnchanged
     /\ IF StoredTx(Ix, t) # {}
        THEN status = "committed" /\ blk = ReportedBlockOf(t)
        ELSE status = "unknown"
 
 RpcFetchHeader(b, status) ==
-    /\ UNCHANGED psCore
+    /\ UNCHANGED psCore /\ UNCHANGED <<over, subst>>
     /\ UNCHANGED <<scripts, startOf, minF, mdb, mmem, cpFinal, cached, pf, fetchT>> /\ IxUnchanged
     /\ IF b \in hdrs
        THEN status = "fetched" /\ UNCHANGED fetchH
@@ -368,7 +395,7 @@ Without(S, ids) == {e \in S : e[1] \notin ids}
 
 \* fetch_headers_txs: entries never sent or timed out go to an idle best peer
 FetchTick ==
-    /\ UNCHANGED psCore
+    /\ UNCHANGED psCore /\ UNCHANGED <<over, subst>>
     /\ UNCHANGED <<scripts, startOf, minF, mdb, mmem, cpFinal, cached>> /\ IxUnchanged
     /\ IF (fetchH = {} /\ fetchT = {}) \/ BestPeers = {}
        THEN UNCHANGED <<fetchH, fetchT>>
@@ -456,9 +483,10 @@ HistOnCanon ==
 MatchedAtRightHeight ==
     \A i \in 1..Len(mdb) : \A j \in 1..Len(mdb[i][3]) :
         LET b == mdb[i][3][j][1] IN
-        /\ b >= 1
-        /\ mdb[i][1] <= Num(world, b) /\ Num(world, b) < mdb[i][1] + mdb[i][2]
-        /\ IsAnc(world, b, tip)
+        \/ "KF-C06-blockhash" \in cfg.allow /\ b \in subst
+        \/ /\ b >= 1
+           /\ mdb[i][1] <= Num(world, b) /\ Num(world, b) < mdb[i][1] + mdb[i][2]
+           /\ IsAnc(world, b, tip)
 
 \* blocks whose filters have been processed but which are still waiting in a matched record
 Pending == UNION {{mdb[i][3][j][1] : j \in 1..Len(mdb[i][3])} : i \in 1..Len(mdb)}
@@ -504,6 +532,9 @@ FetchedTruthful ==
 
 \* the invariants that only depend on index, scripts and tip (re-evaluated when one of them changes)
 IndexInv == CellsSound /\ HistOnCanon /\ ScriptsNumberHonest
+
+\* once a substituted block hash was accepted (KF-C06-blockhash) the rest of the scenario cannot be complete
+Tainted == "KF-C06-blockhash" \in cfg.allow /\ subst # {}
 
 Quiet == mdb = <<>> /\ mmem = {} /\ minF = Num(world, tip) /\ \A e \in scripts : e[2] = minF
 =============================================================================
